@@ -674,3 +674,35 @@ Proof.
   intros Hi Hnd Hlen He Hc E Hf. destruct (reach_cut le c h0 blocks t0 h pre o sc post Hi Hnd Hlen He Hc E) as [F1 F2 F3 F4 F5 F6 F7 F8 F9].
   rewrite F6. exact (tracker_fate le _ o sc _ _ uuid k (bi_inv _ F2) (step_eq le _ o sc) F5 Hf).
 Qed.
+
+(* the "until" hypothesis as a computation (for concrete histories) *)
+Fixpoint never_ends (le : bool) (t : tower) (mid : list (op * script)) (uuid : N * N) : bool :=
+  match mid with
+  | [] => true
+  | (o, sc) :: r =>
+      match trk_end_of t o sc uuid with
+      | None => never_ends le (fst (step le t o sc)) r uuid
+      | Some _ => false
+      end
+  end.
+
+Lemma run_cons_not_abort le t o sc r :
+  Forall not_abort (snd (run le t ((o, sc) :: r))) ->
+  not_abort (snd (step le t o sc)) /\ Forall not_abort (snd (run le (fst (step le t o sc)) r)).
+Proof.
+  cbn [run]. destruct (step le t o sc) as [t1 x]. cbn [fst snd]. destruct (run le t1 r) as [t2 xs]. cbn [snd].
+  destruct x; intros Hall; inversion Hall; subst; try contradiction; split; assumption.
+Qed.
+
+Lemma never_ends_cuts le : forall mid t uuid,
+  Forall not_abort (snd (run le t mid)) -> never_ends le t mid uuid = true ->
+  forall m1 o sc m2, mid = m1 ++ (o, sc) :: m2 -> trk_end_of (fst (run le t m1)) o sc uuid = None.
+Proof.
+  induction mid as [|[o0 sc0] mid IH]; intros t uuid Hall Hne m1 o sc m2 E; [destruct m1; discriminate|].
+  destruct (run_cons_not_abort le t o0 sc0 mid Hall) as [Hna Hrest]. cbn [never_ends] in Hne.
+  destruct (trk_end_of t o0 sc0 uuid) eqn:Et; [discriminate|].
+  destruct m1 as [|[o1 sc1] m1]; cbn [List.app] in E.
+  - injection E as E1 E2 E3. subst o0 sc0 mid. cbn [run fst]. exact Et.
+  - injection E as E1 E2 E3. subst o1 sc1 mid. rewrite (run_cons_ok le t o0 sc0 m1 Hna). cbn [fst].
+    exact (IH _ uuid Hrest Hne m1 o sc m2 eq_refl).
+Qed.
